@@ -60,10 +60,11 @@ theorem minv_run_isg {σ : St} (x inp : Nat) (M : MInv σ) (hpc : (σ.th x).pc =
   · intro s hs
     have := M.clReg s hs
     simp only [stepRun, hpc]; simp only [reg, St.ring] at this; exact this
-  · obtain ⟨l1, l2, l3, l4, l5, l6, l7, l8, l9, l10, l11, l12, l13, l14, l15, l16, l17, l18, l19, l20, l21, l22⟩ := M.thr x
-    rw [hpc] at l1 l2 l3 l4 l5 l6 l7 l8 l9 l10 l11 l12 l13 l14 l15 l16 l17 l18 l19 l20 l21 l22
+  · obtain ⟨l1, l2, l3, l4, l5, l6, l7, l8, l9, l10, l11, l12, l13, l14, l15, l16, l17, l18, l19, l20, l21, l22, l23⟩ := M.thr x
+    simp only [Th.sgOn] at l23
+    rw [hpc] at l1 l2 l3 l4 l5 l6 l7 l8 l9 l10 l11 l12 l13 l14 l15 l16 l17 l18 l19 l20 l21 l22 l23
     simp only [stepRun, hpc]
-    refine ⟨?_, ?_, ?_, ?_, ?_, ?_, ?_, ?_, ?_, ?_, ?_, ?_, ?_, ?_, ?_, ?_, ?_, ?_, ?_, ?_, ?_, ?_⟩
+    refine ⟨?_, ?_, ?_, ?_, ?_, ?_, ?_, ?_, ?_, ?_, ?_, ?_, ?_, ?_, ?_, ?_, ?_, ?_, ?_, ?_, ?_, ?_, ?_⟩
     all_goals first | tl_auto | (split <;> tl_auto) | skip
     · intro hr _
       simp [St.goto, St.setTh, St.flush, upd] at hr ⊢
@@ -75,6 +76,32 @@ theorem minv_run_isg {σ : St} (x inp : Nat) (M : MInv σ) (hpc : (σ.th x).pc =
     split at hc <;> simp [Th.creating, St.goto, St.setTh, St.flush, upd, PC.cloneS, PC.addPC, PC.afterNew] at hc
   · simp only [stepRun, hpc]; simp [St.goto, St.setTh, St.flush, upd]
 
+/-- the per-call `is_single` load: a count of one means the handle is the only counted one of its stream -/
+theorem minv_run_is1 {σ : St} (x inp : Nat) (M : MInv σ) (hpc : (σ.th x).pc = .is1) :
+    MInv (stepRun σ x inp).2 := by
+  obtain ⟨c1, c2⟩ := (M.thr x).rcv (by rw [hpc]; rfl)
+  have hlen := M.nc (σ.th x).s
+  apply minv_same x inp M
+  · simp only [stepRun, hpc]; rfl
+  · simp only [stepRun, hpc]; rfl
+  · intro s hs
+    have := M.clReg s hs
+    simp only [stepRun, hpc]; simp only [reg, St.ring] at this; exact this
+  · obtain ⟨l1, l2, l3, l4, l5, l6, l7, l8, l9, l10, l11, l12, l13, l14, l15, l16, l17, l18, l19, l20, l21, l22, l23⟩ := M.thr x
+    rw [hpc] at l1 l2 l3 l4 l5 l6 l7 l8 l9 l10 l11 l12 l13 l14 l15 l16 l17 l18 l19 l20 l21 l22
+    simp only [stepRun, hpc]
+    refine ⟨?_, ?_, ?_, ?_, ?_, ?_, ?_, ?_, ?_, ?_, ?_, ?_, ?_, ?_, ?_, ?_, ?_, ?_, ?_, ?_, ?_, ?_, ?_⟩
+    all_goals first | tl_auto | skip
+    · intro hr
+      simp [St.goto, St.setTh, St.flush, upd, Th.sgOn] at hr ⊢
+      rw [hr.1] at hlen
+      match hl : σ.cl (σ.th x).s, hlen.symm with
+      | [b], _ => rw [hl] at c1; simp at c1; rw [c1]
+  · intro hc; exfalso
+    simp only [stepRun, hpc] at hc
+    simp [Th.creating, St.goto, St.setTh, St.flush, upd, PC.cloneS, PC.addPC, PC.afterNew] at hc
+  · simp only [stepRun, hpc]; simp [St.goto, St.setTh, St.flush, upd]
+
 /-- `add_stream`: a failed publication retries -/
 theorem minv_run_a3_fail {σ : St} (x inp : Nat) (c raw ng : Nat) (M : MInv σ) (hpc : (σ.th x).pc = .a3 c raw ng)
     (hne : σ.cur ≠ c) : MInv (stepRun σ x inp).2 := by
@@ -84,10 +111,11 @@ theorem minv_run_a3_fail {σ : St} (x inp : Nat) (c raw ng : Nat) (M : MInv σ) 
   · intro s hs
     have := M.clReg s hs
     simp only [stepRun, hpc, hne, if_false]; simp only [reg, St.ring] at this; exact this
-  · obtain ⟨l1, l2, l3, l4, l5, l6, l7, l8, l9, l10, l11, l12, l13, l14, l15, l16, l17, l18, l19, l20, l21, l22⟩ := M.thr x
-    rw [hpc] at l1 l2 l3 l4 l5 l6 l7 l8 l9 l10 l11 l12 l13 l14 l15 l16 l17 l18 l19 l20 l21 l22
+  · obtain ⟨l1, l2, l3, l4, l5, l6, l7, l8, l9, l10, l11, l12, l13, l14, l15, l16, l17, l18, l19, l20, l21, l22, l23⟩ := M.thr x
+    simp only [Th.sgOn] at l23
+    rw [hpc] at l1 l2 l3 l4 l5 l6 l7 l8 l9 l10 l11 l12 l13 l14 l15 l16 l17 l18 l19 l20 l21 l22 l23
     simp only [stepRun, hpc, hne, if_false]
-    refine ⟨?_, ?_, ?_, ?_, ?_, ?_, ?_, ?_, ?_, ?_, ?_, ?_, ?_, ?_, ?_, ?_, ?_, ?_, ?_, ?_, ?_, ?_⟩
+    refine ⟨?_, ?_, ?_, ?_, ?_, ?_, ?_, ?_, ?_, ?_, ?_, ?_, ?_, ?_, ?_, ?_, ?_, ?_, ?_, ?_, ?_, ?_, ?_⟩
     all_goals tl_auto
   · intro _; exact Or.inr (Or.inr (Or.inl (by rw [hpc]; rfl)))
   · simp only [stepRun, hpc, hne, if_false]; simp [St.gotoF, St.setTh, St.flush, upd]
@@ -119,10 +147,11 @@ theorem minv_run_a3_ok {σ : St} (x inp : Nat) (raw ng : Nat) (M : MInv σ) (R :
     · rename_i es; subst es; rw [c3] at ha; cases ha
     · exact ha
   have Lx : TLoc (stepRun σ x inp).2 ((stepRun σ x inp).2.th x) := by
-    obtain ⟨l1, l2, l3, l4, l5, l6, l7, l8, l9, l10, l11, l12, l13, l14, l15, l16, l17, l18, l19, l20, l21, l22⟩ := M.thr x
-    rw [hpc] at l1 l2 l3 l4 l5 l6 l7 l8 l9 l10 l11 l12 l13 l14 l15 l16 l17 l18 l19 l20 l21 l22
+    obtain ⟨l1, l2, l3, l4, l5, l6, l7, l8, l9, l10, l11, l12, l13, l14, l15, l16, l17, l18, l19, l20, l21, l22, l23⟩ := M.thr x
+    simp only [Th.sgOn] at l23
+    rw [hpc] at l1 l2 l3 l4 l5 l6 l7 l8 l9 l10 l11 l12 l13 l14 l15 l16 l17 l18 l19 l20 l21 l22 l23
     simp only [stepRun, hpc, if_true, hout, if_false]
-    refine ⟨?_, ?_, ?_, ?_, ?_, ?_, ?_, ?_, ?_, ?_, ?_, ?_, ?_, ?_, ?_, ?_, ?_, ?_, ?_, ?_, ?_, ?_⟩
+    refine ⟨?_, ?_, ?_, ?_, ?_, ?_, ?_, ?_, ?_, ?_, ?_, ?_, ?_, ?_, ?_, ?_, ?_, ?_, ?_, ?_, ?_, ?_, ?_⟩
     all_goals tl_auto
   refine ⟨by rw [e_wr, e_sl]; exact M.wr, ?_, ?_, excl_step x inp M hxi, ?_, ?_, ?_, ?_, ?_, ?_, ?_, ?_, ?_⟩
   · intro s; rw [e_nc, e_cl]; simp only [upd]; split
